@@ -18,10 +18,5 @@ func (pq *PriorityQueue) VerifItems() []VerifElem {
 	return out
 }
 
-// VerifSetBufSize changes the capacity (scaled-model scenarios only); the
-// instrumenter turns the bufSize constant into a variable for this check.
-func VerifSetBufSize(n int) (old int) {
-	old = bufSize
-	bufSize = n
-	return old
-}
+// VerifBufSize is the queue's capacity.
+const VerifBufSize = bufSize
